@@ -43,7 +43,12 @@ def make_apply(sampler):
         A.sleep = recorder
         try:
             try:
-                value = getattr(obj, name)(*args, **kwargs)
+                if name == "rewrite_angle":
+                    value = obj.write(obj.read())
+                elif name == "rewrite_pulse":
+                    value = obj.write_us(obj.read_us())
+                else:
+                    value = getattr(obj, name)(*args, **kwargs)
                 return StepResult(None, value, effects)
             except Exception as exc:  # noqa: BLE001 - raising transitions are part of the space
                 return StepResult(exc, None, effects)
@@ -150,6 +155,8 @@ def rgb_space(tier):
         for dur, steps in ((1000, 50), (0, 5), (100, 1), (10, 3), (-1, 5), (100, 0), (100, -2), (7.5, 4), (100, 7), (130, 50), (30, 50), (11, 7), (5, 3), (1, 2), (3, 2), (99, 100)):
             ops.append(("fade", c, {"duration_ms": dur, "steps": steps}))
     ops.append(("fade", (255, 0, 0), {"duration_ms": 130}))
+    for steps in (2.5, 0.5, 7.25, 4.0, True):
+        ops.append(("fade", (200, 100, 0), {"duration_ms": 20, "steps": steps}))
     ops.append(("fade", (5, 1, 3), {}))
     for c in colours[:4] + bad[:3]:
         for times, delay in ((1, 200), (2, 0), (3, 15), (0, 10), (-1, 10), (1, -1), (2, 2.5)):
@@ -221,6 +228,13 @@ SERVO_CFGS = {
     "Servo[signed]": dict(min_angle=-90.0, max_angle=90.0, min_pulse_us=544.0, max_pulse_us=2400.0),
     "Servo[negative]": dict(min_angle=-120.0, max_angle=-30.0, min_pulse_us=1000.0, max_pulse_us=2000.0),
     "Servo[positive]": dict(min_angle=45.0, max_angle=60.0, min_pulse_us=900.0, max_pulse_us=2100.0),
+    # ranges whose slope is not exactly representable (the end stops must still map exactly)
+    "Servo[120/1100]": dict(min_angle=0.0, max_angle=120.0, min_pulse_us=1000.0, max_pulse_us=2100.0),
+    "Servo[120/900]": dict(min_angle=0.0, max_angle=120.0, min_pulse_us=900.0, max_pulse_us=2000.0),
+    "Servo[170/1656]": dict(min_angle=0.0, max_angle=170.0, min_pulse_us=544.0, max_pulse_us=2200.0),
+    "Servo[180/1750]": dict(min_angle=0.0, max_angle=180.0, min_pulse_us=600.0, max_pulse_us=2350.0),
+    "Servo[270]": dict(min_angle=0.0, max_angle=270.0, min_pulse_us=500.0, max_pulse_us=2500.0),
+    "Servo[7/3]": dict(min_angle=-3.5, max_angle=3.5, min_pulse_us=1000.0, max_pulse_us=1300.0),
 }
 
 
@@ -239,7 +253,8 @@ def servo_space(tier, variant):
     if tier == "thorough":
         angles += [lo_a + 0.1, 90, 45.5, 179.999]
         pulses += [1500, 1000.25, 2399.9]
-    ops: List[Op] = [("read", (), {}), ("read_us", (), {})]
+    # rewrite_*: feed a getter's own result back (write(read()), write_us(read_us())): accepted and a no-op in every state
+    ops: List[Op] = [("read", (), {}), ("read_us", (), {}), ("rewrite_angle", (), {}), ("rewrite_pulse", (), {})]
     ops += [("write", (a,), {}) for a in angles]
     ops += [("write_us", (p,), {}) for p in pulses]
 
@@ -263,6 +278,8 @@ def servo_space(tier, variant):
         name, args, _ = op
         after = canon(s)
         if res.exc is not None:
+            if name.startswith("rewrite"):
+                return f"{name}: the servo refuses the value its own getter returned ({type(res.exc).__name__}: {res.exc}) in state {before}"
             if after != before:
                 return f"{explore.op_text(op)} raised but changed the object {before} -> {after}"
             return None
@@ -272,6 +289,8 @@ def servo_space(tier, variant):
             return f"write_us({args[0]}) then read_us() == {s.read_us()}"
         if name in ("read", "read_us") and after != before:
             return f"{name}() changed the object"
+        if name.startswith("rewrite") and (abs(after[0] - before[0]) > 1e-9 or abs(after[1] - before[1]) > 1e-6):
+            return f"feeding {name[8:]} back through its own setter moved the servo {before} -> {after}"
         return None
 
     return variant, (lambda: A.Servo(9, **cfg)), ops, canon, check_state, check_step, None
